@@ -23,6 +23,10 @@ def units():
         us.append(Unit("ringn_caps_n%d" % n, P + "ringn_caps_n%d" % n, F, "nside %d, every position of the polar gores incl. numerically on/outside their edges: same" % n, tiers=t, timeout=900, level="B", bound="nside %d" % n, extra=dict(no_native=True)))
         if n in (1, 5, 1000, 536870912):
             us.append(Unit("ringn_panic_n%d" % n, P + "ringn_panic_n%d" % n, ["ring::center_of_projected_cell", "ring::check_hash"], "nside %d: cell number >= 12 nside^2 rejected by a panic (center, sph_coo, vertices all start with it)" % n, kind="must_panic", allowed_fail=[r"Wrong hash value: too large"], tiers=t, timeout=600))
+    for n in (1, 2, 3, 5, 6):
+        us.append(Unit("ringn_contains_n%d" % n, P + "ringn_contains_n%d" % n, F + ["ring::center_of_projected_cell", "ring::polar_cap_ring_index"], "nside %d: the centre of the returned cell is within 1/nside (L1, projection plane) of the position -- centre taken from the definition of the RING scheme, away from the glued gore edges; time-bounded refutation search" % n, kind="search", timeout=300, extra=dict(no_native=True)))
+    for n in (1, 2, 3, 5):
+        us.append(Unit("ringn_center_def_n%d" % n, P + "ringn_center_def_n%d" % n, ["ring::center_of_projected_cell", "ring::polar_cap_ring_index"], "nside %d, every cell: the crate's projected centre == the definition of the RING scheme (ring sizes, equal spacing from lon = 0, ring ordinate); search" % n, kind="search", timeout=300))
     us.append(Unit("pcri_contract_lt_2p10", "nested::verif_ring::pcri_contract_lt_2p10", ["ring::polar_cap_ring_index"], "contract of the repaired polar-cap ring index used by ring::center_of_projected_cell: 2r(r+1) <= h < 2(r+1)(r+2), h < 2^10", level="B", bound="h < 2^10"))
     us.append(Unit("pcri_contract_2p53_2p62", "nested::verif_ring::pcri_contract_2p53_2p62", ["ring::polar_cap_ring_index"], "same, 2^53 <= h < 2^62 (huge NSIDE): time-bounded refutation search", kind="search", timeout=240))
     return us
